@@ -17,8 +17,9 @@ CFLAGS = ["-DHAVE_CONFIG_H", "-D_GNU_SOURCE", "-D_REENTRANT", "-D" + GUARD,
           "-I" + REPO, "-I" + REPO + "/src"]
 
 CBMC_BASE = ["--unwinding-assertions", "--pointer-overflow-check", "--undefined-shift-check",
-             "--signed-overflow-check", "--drop-unused-functions", "--no-malloc-may-fail",
-             "--json-ui", "--verbosity", "4"]
+             "--signed-overflow-check", "--drop-unused-functions", "--no-malloc-may-fail"]
+# NOTE: no --json-ui: with it cbmc 6.11 prints a full trace for EVERY failed property (the reachability witnesses always
+# fail) - hundreds of MB per run.  Plain text results are parsed instead; a trace is requested only for refuted properties.
 
 NATIVE_CC = ["clang", "-O1", "-g", "-fsanitize=address,undefined", "-fno-sanitize-recover=all", "-fno-sanitize=shift-base",
              "-fno-omit-frame-pointer", "-DVERIF_NATIVE", "-w",
@@ -107,6 +108,54 @@ class MemGate(object):
         with self.cv:
             self.used -= gb
             self.cv.notify_all()
+
+
+RES_RX = re.compile(r"^\[([^\]]+)\] (?:line (\d+) )?(.*): (SUCCESS|FAILURE|UNKNOWN|ERROR)$")
+HDR_RX = re.compile(r"^(\S+) function (\S+)$")
+
+
+def parse_text_results(out, res):
+    """plain-text cbmc output -> list of property dicts (same keys as the json-ui result objects)"""
+    props = []; errors = []; cur_file = ""; cur_fn = ""; seen_results = False; verdict = False
+    for line in out.splitlines():
+        if line.startswith("** Results:"):
+            seen_results = True; continue
+        m = RES_RX.match(line)
+        if m and seen_results:
+            props.append({"property": m.group(1), "description": m.group(3), "status": m.group(4),
+                          "sourceLocation": {"file": cur_file, "function": cur_fn, "line": m.group(2)}})
+            continue
+        m = HDR_RX.match(line)
+        if m and seen_results:
+            cur_file, cur_fn = m.group(1), m.group(2); continue
+        if line.startswith("VERIFICATION "):
+            verdict = True
+        mm = re.search(r"size of program expression: (\d+) steps", line)
+        if mm: res["program_steps"] = int(mm.group(1))
+        mm = re.search(r"Generated (\d+) VCC\(s\), (\d+) remaining", line)
+        if mm: res["vccs"] = int(mm.group(1)); res["vccs_remaining"] = int(mm.group(2))
+        mm = re.search(r"Runtime Solver: ([0-9.e+-]+)s", line)
+        if mm: res["solver_s"] = res.get("solver_s", 0.0) + float(mm.group(1))
+        if "rror" in line or "Out of memory" in line or "out of memory" in line:
+            errors.append(line.strip()[:200])
+    if not verdict or not props:
+        return None, errors
+    return props, errors
+
+
+def vin_from_text(txt):
+    """last whole-array assignment to VINS in a plain-text trace -> bytes"""
+    val = None
+    for line in txt.splitlines():
+        m = re.match(r"^\s*VINS(?:=\{ \.b|\.b)=\{ ([^}]*) \}", line)
+        if m:
+            val = m.group(1)
+    if val is None:
+        return None
+    try:
+        return bytes(int(x) & 255 for x in val.replace(" ", "").split(",") if x != "")
+    except Exception:
+        return None
 
 
 def vin_from_trace(trace):
@@ -251,27 +300,9 @@ class Runner(object):
         if to:
             res["detail"] = "timeout after %ds (cap)" % ob.timeout
             return
-        try:
-            msgs = json.loads(out)
-        except Exception:
-            res["detail"] = "cbmc output unparsable rc=%s: %s" % (rc, (out[-300:] + err[-300:]))
-            return
-        props = None; errors = []
-        for m in msgs:
-            if "result" in m:
-                props = m["result"]
-            if m.get("messageType") == "ERROR":
-                errors.append(m.get("messageText", ""))
-            if m.get("messageType") == "STATUS-MESSAGE":
-                t = m.get("messageText", "")
-                mm = re.search(r"size of program expression: (\d+) steps", t)
-                if mm: res["program_steps"] = int(mm.group(1))
-                mm = re.search(r"Generated (\d+) VCC\(s\), (\d+) remaining", t)
-                if mm: res["vccs"] = int(mm.group(1)); res["vccs_remaining"] = int(mm.group(2))
-                mm = re.search(r"Runtime Solver: ([0-9.e+-]+)s", t)
-                if mm: res["solver_s"] = float(mm.group(1))
+        props, errors = parse_text_results(out, res)
         if props is None:
-            res["detail"] = "cbmc gave no result rc=%s: %s" % (rc, "; ".join(errors)[-400:] or err[-300:])
+            res["detail"] = "cbmc gave no result rc=%s: %s" % (rc, ("; ".join(errors)[-400:] or (out[-300:] + err[-300:])))
             return
         n_ok = 0; fails = []; wit_ok = []; wit_missing = []; notes = []
         seen_wit = {}
@@ -330,18 +361,12 @@ class Runner(object):
             return
         confirmed = None; tried = []
         for p in real:
-            tcmd = [c for c in cmd if c != "--json-ui"] + ["--json-ui", "--trace", "--property", p["property"]]
-            rc, out, err, wall, rss, to = run_cmd(tcmd, ob.timeout, cwd=d, mem_gb=ob.mem_gb * 1.5 + 2, env=env)
+            tcmd = list(cmd) + ["--trace", "--property", p["property"]]
+            sh = " ".join("'%s'" % c.replace("'", "'\\''") for c in tcmd) + " 2>/dev/null | grep -a -E '^ *VINS(=\\{ \\.b|\\.b)=\\{ '"
+            rc, out, err, wall, rss, to = run_cmd(["bash", "-c", sh], ob.timeout, cwd=d, mem_gb=ob.mem_gb * 1.5 + 2, env=env)
             with self.lock:
                 self.queries += 1; self.solver_s += wall
-            vin = None
-            try:
-                for m in json.loads(out):
-                    for r in m.get("result", []) if isinstance(m, dict) else []:
-                        if r.get("status") == "FAILURE" and "trace" in r and not r.get("description", "").startswith("WITNESS"):
-                            vin = vin_from_trace(r["trace"])
-            except Exception:
-                pass
+            vin = vin_from_text(out)
             if vin is None:
                 tried.append({"property": p["property"], "replay": "no VINS in trace"})
                 continue
